@@ -297,10 +297,11 @@ func collectValues(vs []ssa.Value, out map[ssa.Value]bool, d int) {
 func checkC07(c *Ctx, r *Report) {
 	r.Explanation = "Narrow clauses: (S-CLONE) GetAVCProtectRanges and GetHEVCProtectRanges are the same function modulo the avc/hevc package (normalised AST comparison: comments, error texts and local names ignored); " +
 		"(WHO) on the encrypt path SubSamplePattern values are constructed only inside AppendProtectRange, which keeps the 65535-byte clear-run split in one place; " +
-		"(O-USED) senc/saiz record exactly the iv and pattern the crypt call used, the cenc iv is advanced after each sample and the cbcs iv never; (DEP) the saio offset is accumulated over the boxes that precede the senc data. " +
+		"(O-USED) senc/saiz record exactly the iv and pattern the crypt call used, the cenc iv is advanced after each sample and the cbcs iv never; (O-FRESHIV) in cbcs every protected range is coded with a block mode created from the IV for that range (in the function coding one range, or by its caller inside the same loop iteration); (DEP) the saio offset is accumulated over the boxes that precede the senc data. " +
 		"NOT decided, stated plainly: that protected bytes equal an independent AES-CTR / AES-CBC implementation, the 16-byte block and 1:9 pattern arithmetic, exactness of the partition, IV carry arithmetic."
 	ruleSClone(c, r, "mp4", "GetAVCProtectRanges", "GetHEVCProtectRanges", map[string]string{"avc": "hevc"})
 	ruleWhoConstructs(c, r)
 	ruleStoredIsUsed(c, r)
 	ruleSaioOffset(c, r)
+	ruleFreshCBC(c, r)
 }
